@@ -6,9 +6,10 @@ CONSTANTS
   MaxPre = 2
   T = 2  QT = 5  FoCap = 20
   Ticks = FALSE  FwdStream = FALSE
-  DebitFirst = TRUE  CheckMatch = TRUE  StopAtDeadline = TRUE
+  PreWorks <- AllWorks
+  DebitFirst = TRUE  CheckMatch = TRUE  StopAtDeadline = TRUE  LatchGuard = TRUE  StampFirst = TRUE
 SPECIFICATION MonitorSpec
-INVARIANTS ObsAtMostOneReply ObsDebitFirst ObsWithinBudget
+INVARIANTS ObsAtMostOneReply ObsDebitFirst ObsWithinBudget ObsOverBudgetServfail
 CONSTRAINT HighWater
 POSTCONDITION TraceAccepted
 CHECK_DEADLOCK FALSE
